@@ -15,7 +15,8 @@ What is looked for (all .cc/.h/.hpp/.C/.ll/.yy files under src):
   containers hashed by a pointer key (std::unordered_*<T*...>, minisat Map<T*...>), std::hash<T*>; for every declared
   container the uses of the declared name: membership only / iterated / order query / escapes;
   sort-like calls whose element type is a pointer (or cannot be resolved) or whose comparator compares addresses;
-  pointer -> integer conversions (reinterpret_cast<integer>, (size_t)p ...), printing of pointers (%p, << (void*)p);
+  pointer -> integer conversions (reinterpret_cast<integer>, (size_t)p ..., unions overlaying a pointer with a number),
+  printing of pointers (%p, << (void*)p);
   entropy roots (time, clock, getrusage, gettimeofday, clock_gettime, chrono ::now, getpid, random_device, thread ids,
   /dev/urandom ...) followed by a small taint propagation (assignments, out-parameters, returns, arguments of functions
   defined in src, constructor arguments of classes whose constructor reads a root) down to the statements that consume
@@ -1084,6 +1085,14 @@ class Scanner:
                     continue
                 if is_pointer_type(ty, self.ptr_typedefs):
                     self.add(s, m.start(), "KPtrToInt", "(%s)%s" % (m.group(1), opnd), ["AOperandPointer"], "declared %s" % ty)
+            # a union that overlays a pointer with an arithmetic member: reading the other member is a cast without a cast
+            for m in re.finditer(r"\bunion\s*(?:" + IDENT + r"\s*)?\{([^{}]*)\}", t):
+                members = [x.strip() for x in m.group(1).split(";") if x.strip()]
+                ptrs = [x for x in members if "*" in x and "(" not in x]
+                nums = [x for x in members if "*" not in x and re.match(r"(?:const\s+)?(?:unsigned\s+)?(?:" + self.INT_T + r"|double|float|char|short|bool)\b", x)]
+                if ptrs and nums:
+                    self.add(s, m.start(), "KPtrToInt", "union:%s|%s" % (re.findall(IDENT, ptrs[0])[-1], re.findall(IDENT, nums[0])[-1]), ["AOperandPointer"],
+                             "union { %s } overlays a pointer with an arithmetic value" % "; ".join(members)[:160])
             # %p in a format string
             for m in re.finditer(r"%[-+ #0-9.]*p\b", s.code):
                 if s.bare[m.start()] != " " and s.bare[m.start():m.end()] == s.code[m.start():m.end()]:
